@@ -132,7 +132,8 @@ func c16(c *Ctx) {
 	// every pairing of a query that parses / does not parse with a schema that compiles / does not compile
 	pairStart := len(calls)
 	for _, s := range []string{schemas[4], schemas[5], schemas[0], schemas[len(schemas)-1]} {
-		for _, q := range []string{"$.a.b", "$.a.c.Sum()", "$.bad(", "$.a.Equal(\"open", "\xff\xfe"} {
+		for _, q := range []string{"$.a.b", "$.a.c.Sum()", "$.bad(", "$.a.Equal(\"open", "\xff\xfe",
+			"$.a.b.Equal(\"a  b\")", "$.a.b.Equal(\"a b\")", "$.a.b.ReplaceAll(\" \",\"  \")", "$.a.b.ReplaceAll(\"  \",\" \")", "$.s1.result.Equal(\"a\tb\")", "$.s1.result.Equal(\"a b\")"} {
 			for _, cur := range []string{"", "s1"} {
 				k := q + "\x00" + s + "\x00" + cur
 				if !seen[k] {
